@@ -173,6 +173,11 @@ def tensorTotal (t : Tensor Rat) : Rat := (t.toFlat).foldl (· + ·) 0
 def linBody (coefs : List Int) : List (Tensor Rat) → Tensor Rat := fun args =>
   { shape := [], get := fun _ => ((coefs.zip args).map fun (c, a) => (c : Rat) * tensorTotal a).foldl (· + ·) 0 }
 
+/-- array-valued variant of `linBody`: a vector of length `L` whose k-th entry is (k+1) times the scalar -/
+def linBodyVec (coefs : List Int) (L : Nat) : List (Tensor Rat) → Tensor Rat := fun args =>
+  let sc := ((coefs.zip args).map fun (c, a) => (c : Rat) * tensorTotal a).foldl (· + ·) 0
+  { shape := [L], get := fun idx => ((idx.headD 0 : Nat) + 1 : Rat) * sc }
+
 def handle (j : Json) : Except String Json := do
   let op ← j.getObjValAs? String "op"
   match op with
@@ -412,8 +417,9 @@ def handle (j : Json) : Except String Json := do
     let dense := ((j.getObjValAs? (Array String) "dense").toOption.getD #[]).toList
     let sparse := ((j.getObjValAs? (Array String) "sparse").toOption.getD #[]).toList
     let df := (j.getObjValAs? Bool "dense_first").toOption.getD false
+    let leafLen := (j.getObjValAs? Nat "leaf_len").toOption.getD 0
     let outs := coefs.map fun cf =>
-      let f := linBody cf
+      let f := if leafLen = 0 then linBody cf else linBodyVec cf leafLen
       let r := match kind with
         | "productmap" => productmapModel params f vars args
         | "vmap1d" => vmap1dModel params f vars args
